@@ -35,7 +35,7 @@ def chunks(rng, tier):
     for _ in range(rng.range(0, 4)):
         k = rng.below(6)
         if k == 0:
-            out.append(b"")
+            out.append(rng.choice([b"", b"", b"ab\x00cd", b"\x00", b"\x00\x00tail", b"%s %d"]))      # empty, and blocks that are no C strings
         elif k < 4:
             out.append(rng.bytes(rng.range(1, 9)))
         elif k == 4:
